@@ -210,7 +210,22 @@ pub fn run(t: &[&str]) -> String {
             let pts: Vec<_> = (0..n)
                 .map(|i| vertex(pt2(f(6 + 4 * i), f(7 + 4 * i)), vec2(f(8 + 4 * i), f(9 + 4 * i))))
                 .collect();
-            Lathe { points: pts, sectors: u(1), capped: u(2) == 1, az_range: turns(f(3))..turns(f(4)) }.build()
+            // three equivalent ways to describe the same lathe (the fields are public, `new` and `capped`
+            // are conveniences): struct literal; new -> az_range -> capped; new -> capped -> az_range
+            let (secs, capped, az) = (u(1), u(2) == 1, turns(f(3))..turns(f(4)));
+            match if secs >= 3 { (secs as usize + n) % 3 } else { 0 } {
+                0 => Lathe { points: pts, sectors: secs, capped, az_range: az }.build(),
+                1 => {
+                    let mut l = Lathe::new(pts, secs);
+                    l.az_range = az;
+                    l.capped(capped).build()
+                }
+                _ => {
+                    let mut l = Lathe::new(pts, secs).capped(capped);
+                    l.az_range = az;
+                    l.build()
+                }
+            }
         }
         _ => panic!("unknown op"),
     };
